@@ -17,6 +17,9 @@ CONSTANTS
   ClockSteps = {}
   MaxClock = 0
   PreSynced = FALSE
+  InboxCap = 1000000
+  VaryAll = TRUE
+  Granular = TRUE
 INVARIANT SysReport
 POSTCONDITION SysAccepted
 CHECK_DEADLOCK FALSE
